@@ -3,9 +3,11 @@
 // Executes generated histories (spec/keystore/KeystoreGen.tla) on
 // keystore/file.New(tempdir) and keystore/mem.New() and logs what every call
 // returned.  Private keys are reported as numbers in order of first appearance
-// within the run of one implementation (0 = no key returned).  The in-memory
-// keystore does not implement export/import (panic("implement me")); those two
-// operations are executed on the file keystore only (DESIGN.md, C36).
+// within the run of one implementation (0 = no key returned); the keys the
+// driver itself brings (ImportPrivateKey: seeded secret scalars with a given
+// number of leading zero bytes) are reported as 100 + that number.  The in-memory
+// keystore does not implement export/import/import-private (panic("implement
+// me")); those operations are executed on the file keystore only (DESIGN.md, C36).
 // scrypt makes file operations slow, so (scenario, implementation) jobs run in
 // parallel and are logged in scenario order.  No oracle here.
 package main
@@ -20,6 +22,7 @@ import (
 	"strings"
 	"sync"
 
+	"github.com/gauss-project/aurorafs/pkg/crypto"
 	"github.com/gauss-project/aurorafs/pkg/keystore"
 	"github.com/gauss-project/aurorafs/pkg/keystore/file"
 	"github.com/gauss-project/aurorafs/pkg/keystore/mem"
@@ -41,6 +44,32 @@ var pwOf = map[string]string{
 	"upperA":  "A",
 	"unicode": "pässwörd-密码-🔒",
 	"long64":  strings.Repeat("p", 63) + "!",
+}
+
+// givenKey is the key with lz leading zero bytes in its 32-byte secret scalar (and a non-zero byte right after them):
+// a fixture known by construction, the same in every scenario of a run.
+func givenKey(lz int) (*ecdsa.PrivateKey, error) {
+	if lz < 0 || lz > 31 {
+		return nil, fmt.Errorf("leading zero bytes %d", lz)
+	}
+	b := make([]byte, 32)
+	kit.Rng(int64(3600 + lz)).Read(b)
+	for i := 0; i < lz; i++ {
+		b[i] = 0
+	}
+	b[lz] |= 1
+	if lz == 0 {
+		b[0] &= 0x7f // below the group order
+	}
+	return crypto.DecodeSecp256k1PrivateKey(b)
+}
+
+func leadingZeros(k *ecdsa.PrivateKey) int {
+	n := 32 - (k.D.BitLen()+7)/8
+	if n < 0 {
+		n = 0
+	}
+	return n
 }
 
 func errs(e error) string {
@@ -72,9 +101,18 @@ func (j *job) run() {
 		ks = mem.New()
 	}
 	var seen []*ecdsa.PrivateKey
+	given := map[int]*ecdsa.PrivateKey{} // keys this job brought along, by leading-zero count
+	same := func(a, b *ecdsa.PrivateKey) bool {
+		return a.D.Cmp(b.D) == 0 && a.PublicKey.X.Cmp(b.PublicKey.X) == 0 && a.PublicKey.Y.Cmp(b.PublicKey.Y) == 0
+	}
 	kid := func(k *ecdsa.PrivateKey) int {
-		if k == nil || k.D == nil {
+		if k == nil || k.D == nil || k.PublicKey.X == nil || k.PublicKey.Y == nil {
 			return 0
+		}
+		for lz, g := range given {
+			if same(g, k) {
+				return 100 + lz
+			}
 		}
 		for i, s := range seen {
 			if s.D.Cmp(k.D) == 0 && s.PublicKey.X.Cmp(k.PublicKey.X) == 0 && s.PublicKey.Y.Cmp(k.PublicKey.Y) == 0 {
@@ -127,6 +165,21 @@ func (j *job) run() {
 			b := blobs[kit.Int(op, "slot")]
 			p, pmsg := kit.Guard(func() { e = ks.ImportKey(name, pw, b) })
 			ev["pw"], ev["slot"], ev["len"] = kit.Str(op, "pw"), kit.Int(op, "slot"), len(b)
+			ev["invalid"], ev["err"], ev["panicked"], ev["pmsg"] = errors.Is(e, keystore.ErrInvalidPassword), errs(e), p, pmsg
+		case "importpriv":
+			if j.impl != "file" {
+				continue
+			}
+			lz := kit.Int(op, "lz")
+			g, err := givenKey(lz)
+			if err != nil {
+				j.err = err
+				return
+			}
+			given[lz] = g
+			var e error
+			p, pmsg := kit.Guard(func() { e = ks.ImportPrivateKey(name, pw, g) })
+			ev["pw"], ev["lz"], ev["dlz"] = kit.Str(op, "pw"), lz, leadingZeros(g)
 			ev["invalid"], ev["err"], ev["panicked"], ev["pmsg"] = errors.Is(e, keystore.ErrInvalidPassword), errs(e), p, pmsg
 		default:
 			j.err = fmt.Errorf("unknown op %q", opn)
